@@ -54,3 +54,10 @@ package capacity
 //@ func (*SpaceKeeper).DeleteMultiWS
 //@   requires lock-entry: skUnlocked(sk)
 //@   loop * invariant no-lock-held-between-actions: skUnlocked(sk)
+
+// the plotter goroutine is registered with the keeper's WaitGroup by OnStart before it is started, never by itself
+// (a Stop right after Start would otherwise run Wait concurrently with the Add)
+//@ func (*SpaceKeeper).OnStart
+//@   assert-at call spacePlotter plotter-registered-before-it-is-started: wgCount[addr(sk.wg)] == old(wgCount[addr(sk.wg)]) + 1
+//@ func (*SpaceKeeper).spacePlotter
+//@   assert-at call? Add the-goroutine-does-not-register-itself-with-the-keeper: arg0 != addr(sk.wg)
